@@ -642,6 +642,12 @@ func (p *Pkglint) checkRegCvsSubst(filename CurrPath) {
 }
 
 func (p *Pkglint) checkExecutable(filename CurrPath, mode os.FileMode) {
+	if !mode.IsRegular() {
+		// A symbolic link has no permission bits of its own (Lstat reports
+		// 0777 for it), and chmod would change the file it points to.
+		return
+	}
+
 	if mode.Perm()&0111 == 0 {
 		// Not executable at all.
 		return
